@@ -7,10 +7,11 @@
 (* law of MetricsP broken by what the model exports; Accept demands "ok" in every reachable state.                     *)
 EXTENDS MetricsI
 
-CONSTANTS MaxTxn, MaxFlush, MaxReload, MaxRestart, MaxScrape
+CONSTANTS MaxTxn, MaxFlush, MaxReload, MaxRestart, MaxScrape, MaxCollect,
+          FileSel, FlowSel        \* which of the files / flow sets below the instance draws from
 
-VARIABLES g, h, ntxn, nreload, nrestart, nscrape, verdict, devs
-vars == <<g, h, ntxn, nreload, nrestart, nscrape, verdict, devs>>
+VARIABLES g, h, ntxn, nreload, nrestart, nscrape, ncollect, verdict, devs
+vars == <<g, h, ntxn, nreload, nrestart, nscrape, ncollect, verdict, devs>>
 
 Known == << <<"a.t", "v", "{id}">> >>
 
@@ -24,25 +25,27 @@ F3 == Flow("f3", <<"a.t", "w">>, FALSE, <<"flow_name">>, TRUE, 429, FALSE, <<"fl
 \* two filters of different keys that count under one label set: the registry meets one series twice
 F4 == Flow("f4", <<"a.t", "*">>, TRUE, <<"http_method">>, FALSE, 0, FALSE, <<>>, FALSE, FALSE, <<>>)
 F5 == Flow("f5", <<"a.t", "v", "{id}">>, TRUE, <<"http_method">>, FALSE, 0, FALSE, <<>>, FALSE, FALSE, <<>>)
-FlowSets == { <<F1, F2>>, <<F3>>, <<F4, F5>>, <<>> }
+FlowSetList == << <<F1, F2>>, <<F3>>, <<F4, F5>>, <<>> >>
+FlowSets == {FlowSetList[i] : i \in FlowSel}
 
 FileOf(labels, lep, gm, sm, gw) == [labels |-> labels, lepp |-> lep, gm |-> gm, sm |-> sm, gw |-> gw]
 C0 == FileOf(<<"http_method", "status_code", "host", "consumer_tag">>, << <<"a.t", "v", "{id}">> >>, AllG, AllS, "gw1")
 C1 == FileOf(<<"url">>, <<>>, AllG, AllS, "gw1")
 C2 == FileOf(<<"host", "flow_name">>, << <<"a.t", "v", "{x}">> >>, <<"transaction_duration">>, <<"active_flows", "requests_through_flows">>, "")
-Files == {C0, C1, C2}
+FileList == <<C0, C1, C2>>
+Files == {FileList[i] : i \in FileSel}
 
-T(m, us, tag, hx, st, blen, clen) == [m |-> m, us |-> us, tag |-> tag, hx |-> hx, st |-> st, blen |-> blen, clen |-> clen]
-Letters == { T("GET", <<"a.t", "v", "1">>, "A", "", 200, 10, -1),
-             T("GET", <<"a.t", "v", "2">>, "-", "1", 200, 10, -1),
-             T("POST", <<"a.t", "v", "1">>, "A", "", 500, 0, 30),
-             T("GET", <<"b.t", "x">>, "B", "", 200, 4, -1),
-             T("GET", <<"a.t", "w">>, "-", "1", 201, 7, 7) }
+T(m, us, tag, hx, st, blen, clen, d, td) == [m |-> m, us |-> us, tag |-> tag, hx |-> hx, st |-> st, blen |-> blen, clen |-> clen, d |-> d, td |-> td]
+Letters == { T("GET", <<"a.t", "v", "1">>, "A", "", 200, 10, -1, 10, 100),
+             T("GET", <<"a.t", "v", "2">>, "-", "1", 200, 10, -1, 20, 110),
+             T("POST", <<"a.t", "v", "1">>, "A", "", 500, 0, 30, 30, 95),
+             T("GET", <<"b.t", "x">>, "B", "", 200, 4, -1, 40, 90),
+             T("GET", <<"a.t", "w">>, "-", "1", 201, 7, 7, 15, 105) }
 
 \* the plugin's URL tree of the instance: the known endpoint folds its URLs
 MCAttr == LET us == << <<"a.t", "v", "1">>, <<"a.t", "v", "2">>, <<"b.t", "x">>, <<"a.t", "w">> >> IN [i \in DOMAIN us |-> <<us[i], Norm(Known, us[i])>>]
 
-StartEv(c, fs) == [labels |-> c.labels, lepp |-> c.lepp, gm |-> c.gm, sm |-> c.sm, gw |-> c.gw, flows |-> fs]
+StartEv(c, fs) == [labels |-> c.labels, lepp |-> c.lepp, gm |-> c.gm, sm |-> c.sm, gw |-> c.gw, flows |-> fs, legacy |-> TRUE]
 
 Judge(hh, gg) == ScrapeLaw(hh, IScrape(gg), IGatherError(gg))
 
@@ -50,7 +53,7 @@ Init ==
     /\ \E c \in Files, fs \in FlowSets :
          /\ g = IStart(IReset(Known), StartEv(c, fs))
          /\ h = PStart(PReset(Known), StartEv(c, fs))
-    /\ ntxn = 0 /\ nreload = 0 /\ nrestart = 0 /\ nscrape = 0 /\ verdict = "ok" /\ devs = {}
+    /\ ntxn = 0 /\ nreload = 0 /\ nrestart = 0 /\ nscrape = 0 /\ ncollect = 0 /\ verdict = "ok" /\ devs = {}
 
 Txn(t) ==
     /\ ntxn < MaxTxn
@@ -62,21 +65,21 @@ Txn(t) ==
            /\ verdict' = IF tl # "ok" THEN tl ELSE Judge(h2, g2)
            /\ devs' = devs \cup ScrapeDevs(h2, IScrape(g2), IGatherError(g2))
     /\ ntxn' = ntxn + 1
-    /\ UNCHANGED <<nreload, nrestart, nscrape>>
+    /\ UNCHANGED <<nreload, nrestart, nscrape, ncollect>>
 
 Flush(n) ==
     /\ Len(g.pend) > 0 /\ n <= Len(g.pend)
     /\ g' = IFlush(g, n, MCAttr) /\ h' = PFlush(h, n, MCAttr)
     /\ verdict' = Judge(h', g')
     /\ devs' = devs \cup ScrapeDevs(h', IScrape(g'), IGatherError(g'))
-    /\ UNCHANGED <<ntxn, nreload, nrestart, nscrape>>
+    /\ UNCHANGED <<ntxn, nreload, nrestart, nscrape, ncollect>>
 
 \* a scrape moves the parser cache; worth a step only when the cache is behind the file
 Scrape ==
     /\ nscrape < MaxScrape /\ (~g.cached \/ g.cver # g.fver)
     /\ g' = IAfterScrape(g) /\ nscrape' = nscrape + 1
     /\ verdict' = Judge(h, g')
-    /\ UNCHANGED <<h, ntxn, nreload, nrestart, devs>>
+    /\ UNCHANGED <<h, ntxn, nreload, nrestart, devs, ncollect>>
 
 Reload(c, fs) ==
     /\ nreload < MaxReload /\ c.gw = g.gw
@@ -84,7 +87,7 @@ Reload(c, fs) ==
     /\ verdict' = Judge(h', g')
     /\ devs' = devs \cup ScrapeDevs(h', IScrape(g'), IGatherError(g'))
     /\ nreload' = nreload + 1
-    /\ UNCHANGED <<ntxn, nrestart, nscrape>>
+    /\ UNCHANGED <<ntxn, nrestart, nscrape, ncollect>>
 
 \* the access log of the transactions not flushed yet is flushed before the container goes down
 Restart(c, fs) ==
@@ -93,9 +96,19 @@ Restart(c, fs) ==
     /\ verdict' = Judge(h', g')
     /\ devs' = devs \cup ScrapeDevs(h', IScrape(g'), IGatherError(g'))
     /\ nrestart' = nrestart + 1
-    /\ UNCHANGED <<ntxn, nreload, nscrape>>
+    /\ UNCHANGED <<ntxn, nreload, nscrape, ncollect>>
+
+\* a collection tick of the histogram managers; worth a step only when the file moved since their last one
+Collect ==
+    /\ ncollect < MaxCollect /\ (~g.hcached \/ g.hver # g.fver \/ ~g.lcached \/ g.lver # g.fver)
+    /\ g' = ICollect(g) /\ h' = PCollect(h)
+    /\ verdict' = Judge(h', g')
+    /\ devs' = devs \cup ScrapeDevs(h', IScrape(g'), IGatherError(g'))
+    /\ ncollect' = ncollect + 1
+    /\ UNCHANGED <<ntxn, nreload, nrestart, nscrape>>
 
 Next ==
+    \/ Collect
     \/ \E t \in Letters : Txn(t)
     \/ \E n \in 1..MaxFlush : Flush(n)
     \/ Scrape
@@ -114,5 +127,8 @@ W_NoReloadDev  == "reload-compares-with-startup" \notin devs
 W_NoAlwaysDev  == "count-always" \notin devs
 W_NoCoarse     == ~\E s \in IScrape(g) : s.n = "api_call_count_total" /\ s.v >= 2000
 W_NoDupDev     == "duplicate-series" \notin devs
+W_NoLegacyDev  == "legacy-first-sight" \notin devs
+W_NoLegacy     == ~\E s \in IScrape(g) : s.n = "lunar_transaction"
+W_NoHist2      == ~\E s \in IScrape(g) : s.n = "lunar_transaction_duration" /\ s.v >= 2000
 W_NoCut        == ~\E i \in DOMAIN h.reqs : h.reqs[i].flows = {"f1"}
 ================================================================================
